@@ -89,7 +89,10 @@ def _run_one(src, flags, outjson, roots):
     return src, p.returncode, p.stderr[-4000:], time.time() - t0
 
 
-def unit_plan(tier, configs=None):
+HEAVY_DRIVERS = ("parfor.cpp",)   # only parsed by the checks that ask for them (DRIVERS = [...])
+
+
+def unit_plan(tier, configs=None, drivers=None):
     """[(label, src, flags)]"""
     plan = []
     cfgs = configs or (["c14"] if tier == "quick" else ["c14", "c17", "c14dbg", "c17dbg"])
@@ -98,6 +101,11 @@ def unit_plan(tier, configs=None):
         for s in library_units():
             plan.append((cfg + ":" + s, s, cf + BASE_FLAGS + LIB_DEFS))
         for s in driver_units():
+            base = os.path.basename(s)
+            if drivers is None and base in HEAVY_DRIVERS and tier == "quick":
+                continue
+            if drivers is not None and base not in drivers:
+                continue
             plan.append((cfg + ":" + s, s, cf + BASE_FLAGS + ["-I" + VERIF + "/drivers"]))
         if tier == "thorough" and cfg in ("c14", "c17"):
             for s in test_units():
@@ -105,11 +113,11 @@ def unit_plan(tier, configs=None):
     return plan
 
 
-def extract(tier="quick", configs=None, extra_units=None, jobs=16):
+def extract(tier="quick", configs=None, extra_units=None, jobs=16, drivers=None):
     """Returns (Facts, info). Raises AnalysisBroken if a unit fails to parse."""
     if not os.path.exists(DSA):
         raise AnalysisBroken("extractor %s missing: run the setup command (lib/build_tool.py)" % DSA)
-    plan = unit_plan(tier, configs)
+    plan = unit_plan(tier, configs, drivers)
     if extra_units:
         plan += extra_units
     key = _hash_tree()
